@@ -16,11 +16,13 @@
                                    tx_ports == 0 answers Disconnected WITHOUT posting the permit again
      fix7b = false                 before commit 9949d82 (F7b): a receiver that pops a value does not look
                                    at tx_ports and does not pass the permit on
+     fix7c = true                  try_recv looks again (a second sem.try_wait(), Y0b) when it found no permit and
+                                   then tx_ports == 0; fix7c = false: it answers Disconnected at once (F7c)
 
    One transition per shared access, in program order:
      send        M0 rx_ports.load (0: Err(t)) -> M1 queue.push(t) -> M2 sem.post()
      clone_tx    MA tx_ports.fetch_add       drop_tx  MS tx_ports.fetch_sub (1: G0) ; G0 sem.get_value() (0: G1, else done) ; G1 sem.post() -> G0
-     try_recv    Y0 sem.try_wait() (false: Y1 tx_ports.load -> Disconnected | Empty) -> Y2 queue.pop()
+     try_recv    Y0 sem.try_wait() (false: Y1 tx_ports.load -> Disconnected [fix7c: Y0b sem.try_wait() again] | Empty) -> Y2 queue.pop()
                  Some: Y3s tx_ports.load (0: Y4s sem.post()) -> Ok     [fix7b]
                  None: Y3n tx_ports.load (0: Y4n sem.post() [fix7] -> Disconnected ; else unreachable!() = RPanic)
      recv(dur)   try_recv (Empty:) W0 sem.wait()/wait_timeout(dur) -> WB blocked | Y2 ...   (Timeout when the wait gave up)
@@ -36,7 +38,7 @@ Import ListNotations.
 
 Definition val := (nat * nat)%type.
 
-Inductive rpc := YIdle | Y0 | Y1 | W0 | WB | Y2 | Y3s | Y4s | Y3n | Y4n | XA | X0 | X1 | RPanic.
+Inductive rpc := YIdle | Y0 | Y1 | Y0b | W0 | WB | Y2 | Y3s | Y4s | Y3n | Y4n | XA | X0 | X1 | RPanic.
 Inductive tctx := CTry | CFirst.
 Inductive res := RNone | ROk (v : val) | REmpty | RDisc | RTimeout.
 Inductive spc := SIdle | M0 | M1 | M2 | MA | MS | G0 | G1.
@@ -85,7 +87,7 @@ Definition r_ready (x : rrec) : bool := match rp x, rst x with YIdle, Alive => t
 Definition s_ready (y : srec) : bool := match sp y, sst y with SIdle, Alive => true | _, _ => false end.
 
 Section M.
-Variables fix7 fix7b : bool.
+Variables fix7 fix7b fix7c : bool.
 
 Definition step (s : st) (ac : action) : option st :=
   match ac with
@@ -119,8 +121,12 @@ Definition step (s : st) (ac : action) : option st :=
           | 0 => Some (mk (q s) (sv s) (wq s) (txp s) (rxp s) (upd (Rv s) r (r_pc x Y1)) (Sd s) (sent s) (rlog s) (drpd s) (hold s) (pend s) (rep s) (dropper s) (livet s) (liver s) (freed s))
           end
       | Y1 => if is0 (txp s)
-          then Some (mk (q s) (sv s) (wq s) (txp s) (rxp s) (upd (Rv s) r (r_ret x RDisc)) (Sd s) (sent s) (rlog s) (drpd s) (hold s) (pend s) (rep s) (dropper s) (livet s) (liver s) (freed s))
+          then Some (mk (q s) (sv s) (wq s) (txp s) (rxp s) (upd (Rv s) r (if fix7c then r_pc x Y0b else r_ret x RDisc)) (Sd s) (sent s) (rlog s) (drpd s) (hold s) (pend s) (rep s) (dropper s) (livet s) (liver s) (freed s))
           else Some (mk (q s) (sv s) (wq s) (txp s) (rxp s) (upd (Rv s) r (match rc x with CTry => r_ret x REmpty | CFirst => r_pc x W0 end)) (Sd s) (sent s) (rlog s) (drpd s) (hold s) (pend s) (rep s) (dropper s) (livet s) (liver s) (freed s))
+      | Y0b => match sv s with
+          | S n => Some (mk (q s) n (wq s) (txp s) (rxp s) (upd (Rv s) r (r_pc x Y2)) (Sd s) (sent s) (rlog s) (drpd s) (r :: hold s) (pend s) (rep s) (dropper s) (livet s) (liver s) (freed s))
+          | 0 => Some (mk (q s) (sv s) (wq s) (txp s) (rxp s) (upd (Rv s) r (r_ret x RDisc)) (Sd s) (sent s) (rlog s) (drpd s) (hold s) (pend s) (rep s) (dropper s) (livet s) (liver s) (freed s))
+          end
       | W0 => match sv s with
           | S n => Some (mk (q s) n (wq s) (txp s) (rxp s) (upd (Rv s) r (r_pc x Y2)) (Sd s) (sent s) (rlog s) (drpd s) (r :: hold s) (pend s) (rep s) (dropper s) (livet s) (liver s) (freed s))
           | 0 => Some (mk (q s) (sv s) (wq s ++ [r]) (txp s) (rxp s) (upd (Rv s) r (r_gr x WB false)) (Sd s) (sent s) (rlog s) (drpd s) (hold s) (pend s) (rep s) (dropper s) (livet s) (liver s) (freed s))
